@@ -1,6 +1,7 @@
 """C15 -- reflections, walls, fixed points (R1, U1). Narrow."""
 from ..rules import hyp_rules as H
 from ..rules import sibling_rules as SI
+from ..rules import shape_rules as SH
 from ..rules.common import u1
 
 ENTRIES = [(H.HYP, q) for q in (
@@ -13,7 +14,8 @@ ENTRIES = [(H.HYP, q) for q in (
 
 def run(ctx):
     ctx.do(H.rule_r1)
-    ctx.do(SI.rule_eig1)
+    ctx.do(SI.rule_eig1, only={"Hyperplane.from_reflection", "Isometry._fixpoint_data"})
+    ctx.do(SH.rule_ax1, [SH.CORE, H.HYP], scope=ctx.scope(ENTRIES))
     ctx.do(SI.rule_ref1)
     ctx.do(u1, ENTRIES, min_functions=15)
     ctx.r.assume("involutivity, fixed sets and the ordering of fixed points "
